@@ -81,8 +81,16 @@ func applyPatch(doc document.Document, p patch.Patch) (document.Document, error)
 	return nil, fmt.Errorf("action '%s' is not supported", action)
 }
 
-func applyJSON(doc document.Document, entry interface{}) (document.Document, error) {
+func applyJSON(doc document.Document, entry interface{}) (result document.Document, err error) {
 	logger.Debug("Applying JSON patch", logfields.WithPatch(entry))
+
+	// the JSON patch library panics on some well-formed patches that cannot be applied (a test without value, a child
+	// added below a null value, a negative array index): such a patch simply fails to apply
+	defer func() {
+		if r := recover(); r != nil {
+			result, err = nil, fmt.Errorf("JSON patch cannot be applied: %v", r)
+		}
+	}()
 
 	bytes, err := json.Marshal(entry)
 	if err != nil {
